@@ -62,7 +62,15 @@ def service_tables():
         for node in ast.walk(tree):
             if isinstance(node, ast.Assign) and len(node.targets) == 1 and isinstance(node.targets[0], ast.Name):
                 if node.targets[0].id in ("ASA_TCP_PORTS", "ASA_UDP_PORTS"):
-                    out[node.targets[0].id] = {str(k): int(v) for k, v in ast.literal_eval(node.value).items()}
+                    try:
+                        value = ast.literal_eval(node.value)
+                    except ValueError:
+                        # not a plain literal any more (dict(zip(...)), {**a, ...}): the translator's constant-expression
+                        # evaluator reads it (still nothing imported)
+                        import constexpr
+                        import rxscan
+                        value = constexpr.ceval(node.value, rxscan.Scope(tree))
+                    out[node.targets[0].id] = {str(k): int(v) for k, v in value.items()}
         _tables = {"tcp": out["ASA_TCP_PORTS"], "udp": out["ASA_UDP_PORTS"]}
     return _tables
 
